@@ -1,5 +1,5 @@
 (* C19 - Generated fuzzing inputs are always memory-safe, valid request values. *)
-From Ctap Require Import Base Schema Utf8 Typed Arb Inst Tables Limits WireP Utf8P ArbP FnShapes Shapes ObShapeArb Deps ObDeps ObShapeArbRequests.
+From Ctap Require Import Base Schema Utf8 Typed Arb Inst Tables Limits WireP Utf8P ArbP Within ArbTy ArbTyP ObArbGenable Procs ProcTables Finite FramingP ObRequestSide FnShapes Shapes ObShapeArb Deps ObDeps ObShapeArbRequests.
 Local Open Scope string_scope.
 Local Open Scope Z_scope.
 
@@ -64,6 +64,80 @@ Proof. exact arb_descref_ok. Qed.
 
 (* tie to the source for the hand-modelled procedural code: the bodies of these functions, as regenerated from
    /repo now, have the shape (literals, operators, calls, control flow, constants) the model was written against *)
+(* EVERY GENERATED TYPE.  [arb_ty] (coq/Model/ArbTy.v) is the type-directed model of all hand-written impls of src/arbitrary.rs
+   and of the derived ones: members in declaration order, each by the generator of its type.  The differential run compares it
+   with `T::arbitrary` of the implementation for the seven request types, their nested structures and enumerations (value and
+   bytes left).  For EVERY input byte string, in every feature set, for the specification's and the regenerated declarations: the
+   generated value respects every declared capacity, exact length, integer range and element count, text is valid UTF-8,
+   enumerations hold a declared variant ([within], the predicate C12 proves of whatever the decoder accepts) - and no panic site
+   (unwrap, slice, index, from_utf8_unchecked on ill-formed bytes) is reachable: the outcome is a valid value or NotEnoughData *)
+Theorem c19_spec_types_generable : forallb (fun f => all_genable_k (spec_env f) type_fuel) all_feats = true.
+Proof. vm_compute. reflexivity. Qed.
+Theorem c19_generated_types_generable : forallb (fun f => all_genable_k (gen_env f) type_fuel) all_feats = true.
+Proof. exact generated_arb_genable. Qed.
+
+Theorem c19_every_generated_value_valid : forall f name u, In f all_feats -> In name arb_types -> bytes_ok u = true ->
+  match arb_ty (spec_env f) type_fuel (TNamed name) u with
+  | AOk v u' => within (spec_env f) type_fuel (TNamed name) v = true /\ bytes_ok u' = true
+  | ANotEnough => True
+  | APanic _ => False
+  end.
+Proof. exact (arb_family_valid spec_env all_feats c19_spec_types_generable). Qed.
+
+Theorem c19_generated_every_generated_value_valid : forall f name u, In f all_feats -> In name arb_types -> bytes_ok u = true ->
+  match arb_ty (gen_env f) type_fuel (TNamed name) u with
+  | AOk v u' => within (gen_env f) type_fuel (TNamed name) v = true /\ bytes_ok u' = true
+  | ANotEnough => True
+  | APanic _ => False
+  end.
+Proof. exact (arb_family_valid gen_env all_feats generated_arb_genable). Qed.
+
+(* the general statement behind it: any type within the generators' coverage, any environment, any fuel *)
+Theorem c19_generator_valid : forall e k t u, bytes_ok u = true -> genable e k t = true ->
+  match arb_ty e k t u with
+  | AOk v u' => within e k t v = true /\ bytes_ok u' = true
+  | ANotEnough => True
+  | APanic _ => False
+  end.
+Proof. intros e k t u Hb G. exact (arb_valid_k e k t u G Hb). Qed.
+
+Theorem c19_ctap1_register : forall u,
+  match arb_ctap1_register u with
+  | AOk v _ => exists c a, v = VRec [("challenge", VBytes c); ("app_id", VBytes a)] /\ blen c = 32 /\ blen a = 32
+  | ANotEnough => True
+  | APanic _ => False
+  end.
+Proof. exact arb_ctap1_register_valid. Qed.
+
+Theorem c19_ctap1_authenticate : forall cbs u, cbs <> [] -> bytes_ok u = true ->
+  match arb_ctap1_authenticate cbs u with
+  | AOk v _ => exists cb c a kh, v = VRec [("control_byte", VEnum cb); ("challenge", VBytes c); ("app_id", VBytes a); ("key_handle", VBytes kh)]
+                                 /\ In cb cbs /\ blen c = 32 /\ blen a = 32
+  | ANotEnough => True
+  | APanic _ => False
+  end.
+Proof. exact arb_ctap1_authenticate_valid. Qed.
+
+(* non-vacuity: a (minimal) MakeCredential request from 64 zero bytes, and a relying-party entity with id "abc", name "hi" and
+   the icon marker set *)
+Example c19_ex_request :
+  match arb_ty (spec_env []) type_fuel (TNamed "ctap2::make_credential::Request") (repeat 0 64) with
+  | AOk v _ => within (spec_env []) type_fuel (TNamed "ctap2::make_credential::Request") v
+  | _ => false
+  end = true.
+Proof. vm_compute. reflexivity. Qed.
+Example c19_ex_rp :
+  arb_ty (spec_env []) type_fuel (TNamed "webauthn::PublicKeyCredentialRpEntity")
+         [3;0;0;0;0;0;0;0; 97;98;99; 1; 2;0;0;0;0;0;0;0; 104;105; 1; 77]
+  = AOk (VRec [("id", VStr [97;98;99]); ("name", VSome (VStr [104;105])); ("icon", VSome VUnit)]) [77].
+Proof. vm_compute. reflexivity. Qed.
+
+(* the declarations the type-directed generator reads are the specification's (same obligation as C01): the extracted model
+   the differential run executes is instantiated at the specification tables *)
+Theorem c19_generated_conforms :
+  forallb (fun f => request_side_conforms (gen_env f) (spec_env f)) all_feats = true.
+Proof. exact generated_request_side. Qed.
+
 Theorem c19_modelled_functions_unchanged_arb : shapes_hold fn_shapes shapes_arb = true.
 Proof. exact generated_shapes_arb. Qed.
 
@@ -89,3 +163,11 @@ Eval vm_compute in "ASSUMPTIONS c19_str_ref". Print Assumptions c19_str_ref.
 Eval vm_compute in "ASSUMPTIONS c19_descriptor_ref". Print Assumptions c19_descriptor_ref.
 Eval vm_compute in "ASSUMPTIONS c19_modelled_dependencies_pinned". Print Assumptions c19_modelled_dependencies_pinned.
 Eval vm_compute in "ASSUMPTIONS c19_modelled_functions_unchanged_arb_requests". Print Assumptions c19_modelled_functions_unchanged_arb_requests.
+Eval vm_compute in "ASSUMPTIONS c19_ctap1_authenticate". Print Assumptions c19_ctap1_authenticate.
+Eval vm_compute in "ASSUMPTIONS c19_ctap1_register". Print Assumptions c19_ctap1_register.
+Eval vm_compute in "ASSUMPTIONS c19_generator_valid". Print Assumptions c19_generator_valid.
+Eval vm_compute in "ASSUMPTIONS c19_generated_every_generated_value_valid". Print Assumptions c19_generated_every_generated_value_valid.
+Eval vm_compute in "ASSUMPTIONS c19_every_generated_value_valid". Print Assumptions c19_every_generated_value_valid.
+Eval vm_compute in "ASSUMPTIONS c19_generated_types_generable". Print Assumptions c19_generated_types_generable.
+Eval vm_compute in "ASSUMPTIONS c19_spec_types_generable". Print Assumptions c19_spec_types_generable.
+Eval vm_compute in "ASSUMPTIONS c19_generated_conforms". Print Assumptions c19_generated_conforms.
